@@ -32,9 +32,9 @@ Explain(q, a, recs) ==
          ELSE IF recs = <<>> THEN Yes(q1) ELSE No(q1)
     [] a.a = "step" ->
          IF q.pc # "gate" THEN (IF recs = <<>> THEN Yes(q) ELSE No(q))
+         ELSE IF q.stalled /\ Ready(q) # {} THEN LET r == CHOOSE x \in Ready(q) : TRUE IN (IF recs = <<>> THEN Yes(Iter(q, r)) ELSE No(Iter(q, r)))
          ELSE IF recs = <<>> /\ CanSilent(q) THEN Yes(Silent(q))
          ELSE IF Ready(q) = {} THEN (IF recs = <<>> THEN Yes([q EXCEPT !.pc = "sel"]) ELSE No([q EXCEPT !.pc = "sel"]))
-         ELSE IF q.stalled THEN LET r == CHOOSE x \in Ready(q) : TRUE IN (IF recs = <<>> THEN Yes(Iter(q, r)) ELSE No(Iter(q, r)))
          ELSE IF Len(recs) = 1 /\ recs[1] \in Ready(q) THEN Yes(Iter(q, recs[1]))
          ELSE No(Iter(q, CHOOSE x \in Ready(q) : TRUE))
     [] a.a = "expire" ->
